@@ -72,7 +72,7 @@ def _job(a):
     care = ref["care"]
     bad_row = None
     for k, b in enumerate(qf.returns.bitvec):
-        diff = (tabs[b] ^ ref["ret"][k]) & care
+        diff = (tabs[b] ^ ref["ret"][k]) & ref["carebit"][k]
         if diff:
             bad_row = spec.first_row(diff)
             break
@@ -80,7 +80,7 @@ def _job(a):
         n = len(names)
         row = bounded.row_bits(bad_row, n)
         got = [(tabs[b] >> bad_row) & 1 for b in qf.returns.bitvec]
-        exp = [(ref["ret"][k] >> bad_row) & 1 for k in range(len(qf.returns.bitvec))]
+        exp = [((ref["ret"][k] >> bad_row) & 1) if (ref["carebit"][k] >> bad_row) & 1 else "unconstrained" for k in range(len(qf.returns.bitvec))]
         r = res(name, REFUTED, secs=time.time() - t0, replayed=True,
                 replay=dict(program=src, profile=profile, input_bits=dict(zip(names, row)), observed_return_bits=got, expected_return_bits=exp,
                             call="qlassf(program, to_compile=False, bool_optimizer=profile).expressions evaluated at the input"), **base)
@@ -89,7 +89,7 @@ def _job(a):
     note = None
     if care == 0:
         note = f"reference defined on no row (rejects={ref['rejects']}, overflow={ref['overflow']}, why={ref['why']}): accepted outside the subset - diagnostic"
-    r = res(name, PROVED, secs=time.time() - t0, nontrivial=nontrivial, rows=ref["rows"], care_rows=bin(care).count("1"), note=note,
+    r = res(name, PROVED, secs=time.time() - t0, nontrivial=nontrivial, rows=ref["rows"], care_rows=bin(care).count("1"), modular_rows=ref.get("modular_rows"), note=note,
             outcome="accepted" if care else "accepted-reference-rejects", **base)
     out.append(r)
     # truth_table() must report the same rows (small programs)
